@@ -74,6 +74,26 @@ class Model:
 N_THETA = {"constant": 1, "linear": 2, "expdecay": 3, "sin": 3}
 
 
+class MemoModel:
+    """a forward model that remembers its last evaluation (as expensive simulation codes do) and hands out the same array again when
+    asked for the same parameters; `identity` is the model whose predictions are the parameters themselves (returned as given)"""
+
+    def __init__(self, inner, identity=False):
+        self.inner, self.identity = inner, identity
+        self.last_theta, self.last_out = None, None
+
+    def __call__(self, th):
+        if self.identity:
+            return th
+        th = np.asarray(th, dtype=float)
+        if self.last_theta is None or not np.array_equal(th, self.last_theta):
+            self.last_theta, self.last_out = th.copy(), np.asarray(self.inner(th), dtype=float)
+        return self.last_out
+
+    def jac(self, th):
+        return np.eye(len(th)) if self.identity else self.inner.jac(th)
+
+
 def ref_logpdf(cls, y, F, s):
     """per-datum reference log-density in mpmath; y, F, s floats (converted exactly)."""
     y, F, s = mp.mpf(y), mp.mpf(F), mp.mpf(s)
@@ -294,6 +314,12 @@ def history_cases(draw):
     base["alts"] = alts
     base["ops"] = draw(st.lists(st.tuples(st.sampled_from(["value", "cost", "gradient", "cost_gradient"]), st.integers(0, len(alts)),
                                           st.sampled_from(["fresh", "shared", "shared"])), min_size=2, max_size=10))
+    # the forward model may hand out an array it keeps (memoised result) or the parameter vector itself (identity model)
+    base["model_wrap"] = draw(st.sampled_from(["none", "none", "memo", "identity"]))
+    if base["model_wrap"] == "identity":
+        p = len(base["theta"])
+        base["x"], base["log10s"], base["z"] = [0.0] * p, (base["log10s"] * p)[:p], (base["z"] * p)[:p]
+        base["s_dtype"] = base["y_dtype"] = "float"
     return base
 
 
@@ -312,21 +338,29 @@ def body_history(case, ctx):
     compared with an object that has never been used before (whose answers the value / gradient sub-checks tie to the reference)"""
     model, th0, y, s, _ = build(case)
     cls = case["cls"]
+    wrap_kind = case.get("model_wrap", "none")
+    if wrap_kind == "identity":
+        y = th0 + np.array(case["z"]) * s          # data scattered about the parameters themselves
     thetas = [th0] + [np.array(t, dtype=float) for t in case["alts"]]
-    like = CLASSES[cls](y.copy(), s.copy(), model, forward_model_jacobian=model.jac)
+    used_model = model if wrap_kind == "none" else MemoModel(model, identity=(wrap_kind == "identity"))
+    like = CLASSES[cls](y.copy(), s.copy(), used_model, forward_model_jacobian=used_model.jac)
+    if wrap_kind == "identity":
+        model = MemoModel(model, identity=True)   # reference predictions: the parameters
     buf = th0.copy()
     last_shared, switched = None, 0
     for step, (what, j, how) in enumerate(case["ops"]):
         th = thetas[j]
         if how == "shared":
-            buf[:] = th
+            if last_shared != j:       # asked again at the same parameters, the caller passes its array again without touching it
+                buf[:] = th
             arg = buf
             switched += last_shared is not None and not np.array_equal(thetas[last_shared], th)
             last_shared = j
         else:
             arg = th.copy()
-        twin = CLASSES[cls](y.copy(), s.copy(), Model(case["model"], case["x"], th.size), forward_model_jacobian=model.jac)
-        F = model(th)
+        twin_model = Model(case["model"], case["x"], th.size) if wrap_kind != "identity" else (lambda t: np.array(t, dtype=float, copy=True))
+        twin = CLASSES[cls](y.copy(), s.copy(), twin_model, forward_model_jacobian=model.jac)
+        F = np.array(model(th.copy()), dtype=float, copy=True)
         where = f"call {step}: {what} at parameter set {j} passed as a {how} array ({cls}, {case['model']} model)"
         with np.errstate(all="ignore"):
             if what in ("value", "cost"):
@@ -347,6 +381,7 @@ def body_history(case, ctx):
     ctx.nontrivial(switched >= 1)
     ctx.event(f"shared-switches={min(switched, 3)}")
     ctx.event(f"cls={cls}")
+    ctx.event("model=" + wrap_kind)
 
 
 SUBCHECKS = [
